@@ -5,6 +5,7 @@ import (
 	"fmt"
 	"math"
 	"strings"
+	"verifsim/model"
 
 	"verifsim/sdl"
 )
@@ -92,6 +93,59 @@ func addSubstProcs(r rng, p *sdl.Program) {
 		}
 		p.Procs = append(p.Procs, pr)
 	}
+	// a substituted component and one of its holders carry names that differ in capitalisation
+	// only (the order in which the two are created must still be a fixed one)
+	if r.p(0.2) && len(p.Duplicates()) == 0 {
+		var tgt *sdl.Instance
+		for _, pr := range p.Procs {
+			for _, ru := range pr.Rules {
+				if ru.Action == "substitute" && (ru.At == sdl.CbAfter || ru.At == sdl.CbBefore) && tgt == nil {
+					tgt = p.InstByID(ru.Target)
+				}
+			}
+		}
+		if tgt != nil && !p.TypeByName(tgt.Type).Zero {
+			w := model.NewWorld(p, nil)
+			back := w.Needs(w.StartOutcome(), tgt.ID)
+			var holders []*sdl.Instance
+			for _, h := range p.Instances {
+				if h == tgt || p.TypeByName(h.Type).Zero || !back[h.ID] {
+					continue // (only holders the substituted component needs in turn: a cycle)
+				}
+				for _, pt := range p.TypeByName(h.Type).Points {
+					for _, c := range w.Resolve(h, pt).Cands {
+						if c == tgt.ID {
+							holders = append(holders, h)
+						}
+					}
+				}
+			}
+			if len(holders) != 0 {
+				h := pick(r, holders)
+				base := fmt.Sprintf("aq%d", r.IntN(9))
+				a, b := base, "A"+base[1:]
+				if r.p(0.5) {
+					a, b = b, a
+				}
+				renameInstance(p, tgt, a)
+				renameInstance(p, h, b)
+			}
+		}
+	}
+}
+
+// renameInstance gives the instance a custom name and lets every by-name request for its old
+// name follow.
+func renameInstance(p *sdl.Program, inst *sdl.Instance, name string) {
+	old := p.NameOf(inst)
+	inst.Alias = name
+	for _, t := range p.Types {
+		for _, pt := range t.Points {
+			if pt.Sel == sdl.SelName && pt.Name == old {
+				pt.Name = name
+			}
+		}
+	}
 }
 
 // addLifeStuff adds observing processors of all order classes, runners and lazy mixes.
@@ -104,6 +158,18 @@ func addLifeStuff(r rng, p *sdl.Program) {
 				t := &sdl.Type{Name: fmt.Sprintf("%sZR%d", p.ID, z), Zero: true, Role: "runner", Scalar: r.p(0.4)}
 				p.Types = append(p.Types, t)
 				p.Instances = append(p.Instances, &sdl.Instance{ID: fmt.Sprintf("c%d", base+z), Type: t.Name})
+			}
+		}
+		// runners and plain components of function-local types (same package path and name)
+		if r.p(0.12) {
+			base := len(p.Instances)
+			for z := 0; z < r.n(2, 4); z++ {
+				t := &sdl.Type{Name: fmt.Sprintf("%sL%d", p.ID, z), Local: true}
+				if z%2 == 1 || r.p(0.3) {
+					t.Role = "runner"
+				}
+				p.Types = append(p.Types, t)
+				p.Instances = append(p.Instances, &sdl.Instance{ID: fmt.Sprintf("c%d", base+z), Type: t.Name, Alias: fmt.Sprintf("loc%d", base+z)})
 			}
 		}
 		// a component whose definition is contributed by a definition-registry post-processor
@@ -192,6 +258,19 @@ func genClose(r rng, seed uint64, id string) *sdl.Program {
 			t := &sdl.Type{Name: fmt.Sprintf("%sZC%d", id, z), Zero: true, Role: "closer", Scalar: r.p(0.4)}
 			p.Types = append(p.Types, t)
 			p.Instances = append(p.Instances, &sdl.Instance{ID: fmt.Sprintf("c%d", ni), Type: t.Name})
+			ni++
+		}
+	}
+	// closers and plain components of function-local types: distinct types that share package
+	// path and type name
+	if r.p(0.2) {
+		for z := 0; z < r.n(2, 4); z++ {
+			t := &sdl.Type{Name: fmt.Sprintf("%sL%d", id, z), Local: true}
+			if z%2 == 1 || r.p(0.3) {
+				t.Role = "closer"
+			}
+			p.Types = append(p.Types, t)
+			p.Instances = append(p.Instances, &sdl.Instance{ID: fmt.Sprintf("c%d", ni), Type: t.Name, Alias: fmt.Sprintf("loc%d", ni)})
 			ni++
 		}
 	}
@@ -712,6 +791,23 @@ func genRace(r rng, seed uint64, id string) *sdl.Program {
 	}
 	for i := 0; i < r.n(1, 3); i++ {
 		p.Scanners = append(p.Scanners, &sdl.Scanner{ID: fmt.Sprintf("scan%d", i), Tag: customTags[i%len(customTags)]})
+	}
+	// configuration fields of every kind, so that the built-in configuration scanners have work
+	// to do in the parallel phase (among them holders that name their own prefix, declared as
+	// untagged nil pointers)
+	if r.p(0.7) {
+		p.Sources = []*sdl.Source{{ID: "src0", Kind: "raw", Via: "SetConfigLoader", Doc: map[string]any{"sim": map[string]any{"a": 1, "b": 2, "c": 3, "name": "va", "sub": map[string]any{"a": 4, "b": "vb"}}, "other": map[string]any{"n": 5, "tag": "vc", "sel": "a", "f": "${sim.a}+${sim.b}+${sim.c}"}}}}
+		for _, t := range p.Types {
+			if r.p(0.7) {
+				t.Config = append(t.Config, &sdl.Conf{Field: "CT", Menu: "typePrefix", Keys: []string{"sim.sub"}, GoType: "cfgpv"})
+			}
+			if r.p(0.5) {
+				t.Config = append(t.Config, &sdl.Conf{Field: "C0", Menu: pick(r, []string{"value", "prop", "sum", "prefixInt"}), Keys: []string{"sim.a", "sim.b"}, GoType: "int", Optional: true})
+			}
+			if r.p(0.3) {
+				t.Config = append(t.Config, &sdl.Conf{Field: "C1", Menu: "prefixStruct", Keys: []string{"sim.sub"}, GoType: "struct", Optional: true})
+			}
+		}
 	}
 	return p
 }
